@@ -271,7 +271,9 @@ pub(crate) fn parse_included_files<P: AsRef<Path>>(
         .statements()
         .filter_map(|parse_stmt| match parse_stmt {
             synast::Stmt::Include(include) => {
-                let file: synast::FilePath = include.file().unwrap();
+                // An include statement without a file path (`include "01";`, `include;`) is a syntax
+                // error that the parser has already recorded. There is nothing to read.
+                let file: synast::FilePath = include.file()?;
                 let file_path = file.to_string().unwrap();
                 // stdgates.inc will be handled "as if" it really existed.
                 if file_path == "stdgates.inc" {
